@@ -375,7 +375,15 @@ pub fn ref_ja4_opts(h: &Hello, dev: Dev) -> Expected {
         Some(vs) => {
             let ng: Vec<u16> = vs.iter().copied().filter(|v| !is_grease(*v)).collect();
             match ng.iter().max() {
-                Some(m) => (*m, ng.iter().all(|v| (0x0300..=0x0304).contains(v))),
+                // judged whenever every reading of "highest" agrees: the numeric maximum is a
+                // version the specification names, or no listed value is one (then the code is
+                // 00 -- TLS 1.3 drafts 0x7f12.. included); DTLS / SSL2 codes have characters of
+                // their own in some editions and stay unjudged
+                Some(m) => {
+                    let known = |v: &u16| (0x0300..=0x0304).contains(v);
+                    let own_code = |v: &u16| matches!(*v, 0xfeff | 0xfefd | 0xfefc | 0x0002);
+                    (*m, known(m) || ng.iter().all(|v| !known(v) && !own_code(v)))
+                }
                 None => (h.legacy_version, false),
             }
         }
@@ -870,7 +878,7 @@ pub fn random_hello(r: &mut Rng, allow_near_grease: bool) -> Hello {
         1 => 0x0302,
         2 => 0x0300,
         3 => 0x0304,
-        4 => *r.pick(&[0x0305u16, 0x7f1c, 0xfefd, 0x0000, 0xffff, 0x0200, 0x0400]),
+        4 => *r.pick(&[0x0305u16, 0x7f1c, 0x7f17, 0x7f12, 0xfefd, 0x0000, 0xffff, 0x0200, 0x0400]),
         _ => 0x0303,
     };
     for b in h.random.iter_mut() {
